@@ -325,6 +325,24 @@ Theorem C10_index_is_position : forall f n c, NoDup (ids f) -> locate_f n f = So
 Proof. exact index_is_position. Qed.
 Print Assumptions C10_index_is_position.
 
+(* Tree-level accessors: tree.children / get_toplevel_nodes = the sibling list of every top-level node and exactly
+   the nodes that are top-level; first_child / last_child its ends; len(tree) = tree.count = number of nodes =
+   count_descendants of the system root = sum over the top-level nodes (1 + count); leaves likewise *)
+Theorem C10_tree_level_laws : forall f, NoDup (ids f) ->
+  (forall m cx, locate_f m f = Some cx -> q_is_top cx = true ->
+     q_siblings cx true = tr_children f /\ q_first_sibling cx = tr_first_child f /\
+     q_last_sibling cx = tr_last_child f /\ In (c_self cx) (tr_children f)) /\
+  (forall x, In x (tr_children f) -> exists cx, locate_f (rid x) f = Some cx /\ c_self cx = x /\ q_is_top cx = true) /\
+  tr_count f = length (ids f) /\
+  tr_count f = tr_count_desc f false /\
+  (forall cs, map c_self cs = tr_children f ->
+     tr_count f = list_sum (map (fun c => S (q_count_desc c false)) cs) /\
+     tr_count_desc f true = list_sum (map (fun c => if q_is_leaf c then 1 else q_count_desc c true) cs)) /\
+  (tr_children f = [] <-> tr_count f = 0) /\
+  (f <> [] -> 1 <= tr_count_desc f true <= tr_count f).
+Proof. exact tree_level_laws. Qed.
+Print Assumptions C10_tree_level_laws.
+
 (* ================================================================== *)
 (* Source tie: lexical facts lifted from nutree/node.py (Generated.v,   *)
 (* section NAV) agree with what the model computes                       *)
